@@ -13,6 +13,9 @@ def run():
     termlib.mc_slices(c, thorough)
     shards, n_w = termlib.witness_cases(c, 12 if thorough else 4, 3 if thorough else 1, c.seed, max_cases=150000 if thorough else 60000)
     c.extra["witness_cases"] = n_w
+    sshard, n_s = termlib.string_mutation_cases(c, thorough)
+    shards.append(sshard)
+    c.extra["control_string_mutation_cases"] = n_s
     for i in range(n_shards):
         args = ["--gen", per, "--gen-from", 1_000_000 + i * per, "--seed", c.seed]
         if i % 3 == 2:
